@@ -51,6 +51,12 @@ CHECKS = {
             "real wait-fors; acyclic => no report, no stall, clean value.",
             "Cycles that exist only through single-use edges are don't-care (the statement does not fix whether the "
             "edge is demanded when its owner is up to date).", "DESIGN 2/C07"),
+    "C20": ("exploration", "hypothesis+enginesim",
+            "differential PBT: the same generated history through the C++ and the C interface, compared event by event",
+            "No divergence between C++ Rule/Task clients and llb_buildengine_* clients on generated programs x histories "
+            "(every callback with arguments, statuses, completions, values, raw database rows), and the C trace "
+            "satisfies C01's value oracle.",
+            "Restricted to what core.h can express (no signatures, prior values, single-use, cancel).", "DESIGN 2/C20"),
 }
 
 NOT_APPLICABLE = {
